@@ -416,24 +416,45 @@ def make_fault(gen, v, rng, kind=None):
         if not groups:
             return None
         g = pick(sorted(groups))
-        outsiders = [n for n in lv if v["member_of"].get(n) != g and w.kind(n) == "P"]
+        ce = pick(groups[g])
+        outsiders = [n for n in lv if v["member_of"].get(n) != g and sn.subs[n]["dims"] and sn.subs[n]["dims"] > 0]
         if not outsiders:
             return None
         t = pick(outsiders)
+        k = w.kind(t)
+        d = v["dims"][t]
+        insiders = [n for n in lv if v["member_of"].get(n) == g]
+        same = [n for n in insiders if w.kind(n) == k]
         x = rng.random()
-        if x < 0.4:
-            return {"k": "apply", "op": {"fam": "pol", "type": "X"}, "targets": [t], "via": "ce", "ce": pick(groups[g]), "fault": kind,
+        if x < 0.25:
+            op = {"fam": "pol", "type": "X"} if k == "P" else {"fam": "fock", "type": pick(["Creation", "PhaseShift"]), "phi": 0.4} if k == "F" \
+                else {"fam": "custom", "type": "Custom", "operator": c2j(ref.haar_unitary(rng, d))}
+            if op.get("type") == "Creation":
+                op.pop("phi", None)
+            return {"k": "apply", "op": op, "targets": [t], "via": "ce", "ce": ce, "fault": kind,
                     "note": "operand not a member of this composite"}
-        if x < 0.7:
-            Ks = ref.kraus_from_dilation(rng, 2, 2)
-            return {"k": "kraus", "ops": [c2j(K) for K in Ks], "targets": [t], "via": "ce", "ce": pick(groups[g]), "fault": kind}
-        if x < 0.85:
-            insiders = [n for n in lv if v["member_of"].get(n) == g and w.kind(n) == "P"]
-            if not insiders:
+        if x < 0.4:
+            Ks = ref.kraus_from_dilation(rng, d, 2)
+            return {"k": "kraus", "ops": [c2j(K) for K in Ks], "targets": [t], "via": "ce", "ce": ce, "fault": kind}
+        if x < 0.5:
+            Ms = ref.povm_set(rng, d, 2)
+            return {"k": "povm", "ops": [c2j(M) for M in Ms], "targets": [t], "via": "ce", "ce": ce, "fault": kind, "destr": bool(rng.random() < 0.5)}
+        if x < 0.6:
+            tg = [t] if not insiders or rng.random() < 0.5 else [pick(insiders), t]
+            return {"k": "measure", "targets": tg, "via": "ce", "ce": ce, "fault": kind, "destr": bool(rng.random() < 0.5)}
+        if x < 0.7 and k == "P":
+            pin = [n for n in same]
+            if not pin:
                 return None
-            return {"k": "apply", "op": {"fam": "comp", "type": "CXPolarization"}, "targets": [pick(insiders), t], "via": "ce",
-                    "ce": pick(groups[g]), "fault": kind}
-        return {"k": "combine", "targets": [t], "via": "ce", "ce": pick(groups[g]), "fault": kind}
+            return {"k": "apply", "op": {"fam": "comp", "type": "CXPolarization"}, "targets": [pick(pin), t], "via": "ce", "ce": ce, "fault": kind}
+        if x < 0.7 and k == "F":
+            return {"k": "resize", "n": int(d + rng.integers(1, 3)), "targets": [t], "via": "ce", "ce": ce, "fault": kind}
+        if x < 0.85:
+            tg = [t] if not insiders or rng.random() < 0.3 else ([pick(insiders), t] if rng.random() < 0.5 else [t, pick(insiders)])
+            return {"k": "combine", "targets": tg, "via": "ce", "ce": ce, "fault": kind}
+        if x < 0.93 and insiders:
+            return {"k": "reorder", "targets": [t, pick(insiders)] if rng.random() < 0.5 else [pick(insiders), t], "via": "ce", "ce": ce, "fault": kind}
+        return {"k": "trace_out", "targets": [t], "via": "ce", "ce": ce, "fault": kind}
     if kind == "annihilate-vacuum":
         focks = [n for n in lv if w.kind(n) == "F"]
         vac = []
